@@ -109,6 +109,26 @@ class C15Property:
                         attrs = [d[0] for d in entry.attr_domain]
                         attrs[i] = v
                         objs.append((entry.key, entry.build(*[pools.arg_for(f.name, rng, 1) for f in entry.sympy_fields], attrs=tuple(attrs))))
+            # every combination of given / defaulted non-SymPy attributes, the defaulted ones OMITTED from the call
+            import itertools
+
+            names = [f.name for f in entry.fields]
+            for mask in itertools.product((False, True), repeat=len(entry.attr_fields)):
+                if not any(mask) and not entry.attr_fields:
+                    continue
+                kwargs = {f.name: pools.arg_for(f.name, rng, 1) for f in entry.sympy_fields}
+                ok = True
+                for given, f, dom in zip(mask, entry.attr_fields, entry.attr_domain):
+                    alts = [v for v in dom[1:] if c14.is_picklable_attr(v)]
+                    if given and alts:
+                        kwargs[f.name] = rng.choice(alts)
+                    elif f.default is __import__("dataclasses").MISSING:
+                        ok = False
+                if ok and set(kwargs) <= set(names):
+                    try:
+                        objs.append((entry.key, entry.cls(**kwargs)))
+                    except Exception as e:  # noqa: BLE001
+                        failing.append({"class": "constructor with omitted default attributes raises", "cls": entry.key, "error": f"{type(e).__name__}: {e}"})
         for name, o in pools.helper_instances(rng).items():
             objs.append(("helper:" + name, o))
         stats = {"class_instances": len(objs), "with_nested_unevaluated_argument": 0, "with_non_default_attribute": 0,
@@ -136,6 +156,17 @@ class C15Property:
                 failing.append({"class": "pickle round trip does not reproduce an expression", "cls": key, "expr": sp.srepr(o)[:1500],
                                 "loaded": sp.srepr(back)[:1500]})
             else:
+                # other routes through the same protocol: every pickle protocol, copy.copy, copy.deepcopy
+                for how, fn in corr.other_round_trips():
+                    try:
+                        alt = fn(o)
+                    except Exception as e:  # noqa: BLE001
+                        alt = e
+                    if isinstance(alt, Exception) or alt != o or type(alt) is not type(o) or sp.srepr(alt) != sp.srepr(o) or corr.attribute_differences(o, alt):
+                        failing.append({"class": "round trip does not reproduce an expression", "how": how, "cls": key, "expr": sp.srepr(o)[:1200],
+                                        "result": str(alt)[:300], "attributes": corr.attribute_differences(o, alt)[:3] if not isinstance(alt, Exception) else None})
+                        break
+                stats["other_round_trips"] = stats.get("other_round_trips", 0) + len(corr.other_round_trips())
                 # == goes through _hashable_content: look at the attribute VALUES and at what the loaded object unfolds to
                 ad = corr.attribute_differences(o, back)
                 if ad:
@@ -182,6 +213,15 @@ class C15Property:
             stats["models"].append({"model": label, "amplitudes": len(model.amplitudes), "parameters": len(model.parameter_defaults),
                                     "kinematic_variables": len(model.kinematic_variables), "components": len(model.components),
                                     "pickle_bytes": len(pickle.dumps(model))})
+            if not diffs:
+                for how, fn in corr.other_round_trips(models=True):
+                    try:
+                        d2 = corr.compare_models(model, fn(model))
+                    except Exception as e:  # noqa: BLE001
+                        d2 = [f"{how} raised {type(e).__name__}: {e}"]
+                    if d2:
+                        diffs = [f"via {how}: {x}" for x in d2]
+                        break
             if diffs:
                 failing.append({"class": "pickle round trip does not reproduce a model", "model": label, "differences": diffs[:6],
                                 "how": f"tools.corr.C15.build_model({reaction!r}, {dyn!r}, {align!r}); pickle.loads(pickle.dumps(model))"})
